@@ -31,6 +31,15 @@ Lemma every_method_every_path m p :
   out_of r <> OFuel /\ balanced (evs_of r) = true /\ count_acq (evs_of r) = count_rel (evs_of r).
 Proof. intro H. apply lock_checker_sound. apply method_lock_ok. exact H. Qed.
 
+Lemma method_lock_identity m p pre suf g :
+  In m (map snd all_methods) -> evs_of (run AllFaults m p) = pre ++ suf -> lock_gen pre g = g.
+Proof. intros H. apply lock_identity_constant. apply method_lock_ok. exact H. Qed.
+
+Lemma sequences_identity cs :
+  (forall c, In c cs -> In (fst c) (map snd all_methods)) ->
+  forall pre suf g, run_calls cs = pre ++ suf -> lock_gen pre g = g.
+Proof. intro H. apply sequences_lock_identity. intros c Hc. apply method_lock_ok. apply H. exact Hc. Qed.
+
 Lemma sequences_free cs :
   (forall c, In c cs -> In (fst c) (map snd all_methods)) -> balanced (run_calls cs) = true.
 Proof. intro H. apply sequences_balanced. intros c Hc. apply method_lock_ok. apply H. exact Hc. Qed.
@@ -124,3 +133,16 @@ Proof.
   - exists 0%nat. eexists. eexists. eexists. reflexivity.
   - intro H. discriminate H.
 Qed.
+
+(* `with self.lock:` -- the context-manager form of acquire / try / finally release -- passes both checkers and
+   is balanced also when its body raises; the same method re-running the constructor (which creates a new
+   Lock()) is rejected: the lock object changes along its only path *)
+Definition with_del_all : stmt := SWith 830 (SAct 831 XDelAll FDecl).
+Definition reinit_del_all : stmt := SWith 830 (SAct 831 XNewLock FDecl).
+Lemma with_form_example :
+  lock_ok with_del_all = true /\ data_ok CGlobal with_del_all = true /\
+  map ev_code (evs_of (run AllFaults with_del_all [true])) = [(830, 1); (831, 0); (830, 2)] /\
+  out_of (run AllFaults with_del_all [true]) = ORaise /\
+  lock_ok reinit_del_all = false /\ data_ok CGlobal reinit_del_all = false /\
+  lock_gen (evs_of (run AllFaults reinit_del_all [])) 0 = 1.
+Proof. vm_compute. repeat split. Qed.
